@@ -452,6 +452,7 @@ class DznJsonAst:
     def process(self) -> FileContents:
         """"Start processing the preloaded Dezyne JSON AST and return the FileContents."""
         root = parse_root(self.ast)
+        self._file_contents = FileContents()  # each run starts from scratch
         for element in root.elements:
             self.parse_element(element, self._ns_trail)
         return self.file_contents
